@@ -108,6 +108,11 @@ class Path:
                     if isinstance(a, ast.Name):
                         self.env[a.id] = v
                 return
+            if isinstance(t, (ast.Tuple, ast.List)) and all(isinstance(a, ast.Name) for a in t.elts):
+                base = subst(st.value, self.env)
+                for i, a in enumerate(t.elts):
+                    self.env[a.id] = ast.Subscript(value=copy.deepcopy(base), slice=ast.Constant(i), ctx=ast.Load())
+                return
         if isinstance(st, ast.AnnAssign) and isinstance(st.target, ast.Name) and st.value is not None:
             self.env[st.target.id] = subst(st.value, self.env)
             return
